@@ -328,28 +328,94 @@ func mkPipeline(script, edge string) (*pipeline.Pipeline, error) {
 	return p, err
 }
 
-// canonJSON renders the pipeline JSON with object keys sorted (encoding/json already does) and compacted.
-func canonJSON(p *pipeline.Pipeline) (string, error) {
+// canonGraph renders a pipeline independent of node numbering and of nil-versus-empty lists: every node
+// becomes "typeOf{properties without id}<-[signatures of its parents in order]", the graph is the sorted
+// list of these signatures. Equal graphs = identical pipeline graph and node properties.
+func canonGraph(p *pipeline.Pipeline) (string, error) {
 	b, err := json.Marshal(p)
 	if err != nil {
 		return "", err
 	}
-	var v interface{}
+	var doc struct {
+		Nodes []map[string]interface{} `json:"nodes"`
+		Edges []struct {
+			Parent string `json:"parent"`
+			Child  string `json:"child"`
+		} `json:"edges"`
+	}
 	dec := json.NewDecoder(bytes.NewReader(b))
 	dec.UseNumber()
-	if err := dec.Decode(&v); err != nil {
+	if err := dec.Decode(&doc); err != nil {
 		return "", err
 	}
-	c, err := json.Marshal(v)
-	return string(c), err
+	var norm func(v interface{}) interface{}
+	norm = func(v interface{}) interface{} {
+		switch x := v.(type) {
+		case nil:
+			return []interface{}{}
+		case []interface{}:
+			for i := range x {
+				x[i] = norm(x[i])
+			}
+			return x
+		case map[string]interface{}:
+			for k := range x {
+				x[k] = norm(x[k])
+			}
+			return x
+		}
+		return v
+	}
+	props := map[string]string{}
+	parents := map[string][]string{}
+	var ids []string
+	for _, n := range doc.Nodes {
+		id, _ := n["id"].(string)
+		delete(n, "id")
+		c, err := json.Marshal(norm(n))
+		if err != nil {
+			return "", err
+		}
+		props[id] = string(c)
+		ids = append(ids, id)
+	}
+	for _, e := range doc.Edges {
+		parents[e.Child] = append(parents[e.Child], e.Parent)
+	}
+	memo := map[string]string{}
+	var sig func(id string, depth int) string
+	sig = func(id string, depth int) string {
+		if s, ok := memo[id]; ok {
+			return s
+		}
+		if depth > 64 {
+			return "cycle"
+		}
+		var ps []string
+		for _, q := range parents[id] {
+			ps = append(ps, sig(q, depth+1))
+		}
+		if strings.Contains(props[id], `"typeOf":"union"`) {
+			sort.Strings(ps) // the order of the parents of a union means nothing
+		}
+		s := props[id] + "<-[" + strings.Join(ps, ";") + "]"
+		memo[id] = s
+		return s
+	}
+	var sigs []string
+	for _, id := range ids {
+		sigs = append(sigs, sig(id, 0))
+	}
+	sort.Strings(sigs)
+	return strings.Join(sigs, "\n"), nil
 }
 
 func pipeObs(p *pipeline.Pipeline) string {
-	j, err := canonJSON(p)
+	g, err := canonGraph(p)
 	if err != nil {
 		return "err:json"
 	}
-	return "ok " + kit.Esc(string(p.Dot("t"))) + " " + kit.Esc(j)
+	return "ok " + kit.Esc(strconv.Itoa(strings.Count(string(p.Dot("t")), "->"))) + " " + kit.Esc(g)
 }
 
 // ---------------------------------------------------------------------------------------------
@@ -510,6 +576,9 @@ func execCase(ops []string) (out []string) {
 				}
 				q := &pipeline.Pipeline{}
 				if err := q.Unmarshal(b); err != nil {
+					if os.Getenv("VERIF_LOG") != "" {
+						fmt.Fprintf(os.Stderr, "pipeline Unmarshal: %v\n", err)
+					}
 					return "err:unmarshal"
 				}
 				return pipeObs(q)
@@ -807,4 +876,3 @@ func Run(args []string) int {
 	return 0
 }
 
-var _ = sort.Strings
